@@ -161,6 +161,25 @@ func checkC04(w *Worker) {
 		x.Case(f.String(), len(slots) > 0)
 		check(x, f, text, "names-numbers")
 	})
+	// A2: numbers with many significant digits (more than a float64 mantissa holds, up to and beyond 64-bit integers):
+	// every position of the decimal point in each digit string, each sign, plain and with an exponent
+	longDigits := []string{"9007199254740993", "9405090880450125", "30091186058528706", "1234567890123456789", "9999999999999999999",
+		"18446744073709551615", "18446744073709551616", "4503599627370497", "72057594037927937", "123456789012345", "100000000000000000000000001"}
+	w.Explore("long-numbers", ExploreOpts{ShardDepth: 3, Budgets: map[string]int{"layout": 0}}, func(x *Exec) {
+		ds := longDigits[x.Choose(len(longDigits), "input:digits")]
+		pt := x.Choose(len(ds)+2, "input:decimal-point") // before digit pt; len = trailing point; len+1 = none
+		sign := []string{"", "-", "+"}[x.Choose(3, "input:sign")]
+		exp := []string{"", "e-3", "E5"}[x.Choose(3, "input:exponent")]
+		num := ds
+		if pt <= len(ds) {
+			num = ds[:pt] + "." + ds[pt:]
+		}
+		num = sign + num + exp
+		f := absFile{{Header: "rec1", Items: []absItem{{Name: "fat", NumText: "2"}, {Name: "x 1", NumText: num}}}, {Header: "rec2", Items: []absItem{{Name: "long", NumText: num}}}}
+		text, _ := renderFile(x, f, renderOpts{})
+		x.Case(num, true)
+		check(x, f, text, "long-numbers")
+	})
 	// B: every file that departs from the default layout in at most dev places
 	layoutBody := func(r, e int) func(x *Exec) {
 		return func(x *Exec) {
